@@ -13,7 +13,8 @@ for _p in ('C07', 'C08', 'C09'):
 MIX['C05'] = {'new': 4, 'add_gate': 7, 'rename': 1, 'connect': 2, 'into_bench': 1, 'replace_inputs': 1, 'mark_output': 2,
               'set_outputs': 2, 'tseytin': 12, 'circuit_sat': 8}
 MIX['C13'] = {'new': 5, 'add_gate': 6, 'rename': 1, 'connect': 1, 'copy': 1, 'mark_output': 2, 'set_outputs': 2, 'miter': 12,
-              'pxor_member': 2, 'order_inputs': 1, 'set_inputs': 1, 'into_bench': 1, 'order_outputs': 1}
+              'pxor_member': 2, 'order_inputs': 1, 'set_inputs': 1, 'into_bench': 1, 'order_outputs': 1, 'make_block': 1,
+              'replace_inputs': 1, 'replace_subcircuit': 1, 'remove_gate': 1}
 MIX['C16'] = {'new': 4, 'add_gate': 7, 'rename': 4, 'replace_subcircuit': 2, 'connect': 2, 'mark_output': 2, 'set_outputs': 1,
               'remove_gate': 1, 'into_bench': 1, 'codec': 12, 'bitio': 3, 'dictio': 4, 'db_history': 3}
 MIX['C11'] = {'new': 4, 'add_gate': 7, 'rename': 4, 'connect': 2, 'mark_output': 2, 'set_outputs': 1, 'remove_gate': 1,
